@@ -11,6 +11,17 @@ Lemma consts_facts :
   0 < time_cluster_continuity /\ 1 <= min_cluster_size /\ 0 < quarter_second /\ 1 <= delta_time_cap.
 Proof. cbv. repeat split; congruence. Qed.
 
+(* the values of ETSI TS 103 300-3 V2.3.1 Table 15, in ticks *)
+Lemma consts_standard :
+  time_cluster_uniqueness_threshold = 30 * ticks_per_second /\
+  time_cluster_breakup_warning = 3 * ticks_per_second /\
+  time_cluster_join_notification = 3 * ticks_per_second /\
+  2 * time_cluster_join_success = ticks_per_second /\
+  time_cluster_continuity = 2 * ticks_per_second /\
+  time_cluster_leave_notification = ticks_per_second /\
+  4 * quarter_second = ticks_per_second.
+Proof. cbv. repeat split. Qed.
+
 Global Opaque time_cluster_join_notification time_cluster_join_success time_cluster_leave_notification
   time_cluster_breakup_warning time_cluster_continuity time_cluster_uniqueness_threshold nearby_max_age
   num_create_cluster min_cluster_size max_cluster_distance quarter_second delta_time_cap cluster_id_attempts.
